@@ -130,6 +130,17 @@ def multi(ctx, drv):
             if dec(t) is None or len(dec(t)) > 16:
                 t = F(int(t * tps), tps) if dec(F(int(t * tps), tps)) else F(int(t))
             fr.append(t)
+        if rng.random() < 0.2:
+            # two (or three) distinct arrivals a hair's breadth apart, on either side of a tick boundary far from zero: they belong to different ticks
+            tps = rng.choice([1, 2, 4])
+            k = rng.randint(2000, 6000) * tps
+            fr = [F(k, tps) - F(1, 10 ** 6), F(k, tps) + F(5, 10 ** 7)]
+            if rng.random() < 0.5:
+                fr.append(F(k, tps) + F(6, 10 ** 7))
+            if rng.random() < 0.5:
+                fr.insert(0, F(rng.randint(0, k - 1), tps))
+            nticks = k + 3
+            ctx.sit("replays_with_near_equal_arrivals_across_a_boundary")
         arrs = [dec(x) for x in fr]
         m = drv.send(f"replay {tps} {nticks} " + ",".join(f"{x.numerator}/{x.denominator}" for x in fr))
         wl = make_trace(arrs, tps)
@@ -168,8 +179,8 @@ def roundtrip(ctx):
     import contextlib
     rng = random.Random(ctx.seed + 2)
     for it in range(6 if ctx.quick() else 40):
-        tps = rng.choice([1, 3, 7, 10, 100, 1000])
-        dur = rng.choice([20, 60]) if tps <= 100 else 6
+        tps = rng.choice([1, 3, 7, 10, 100, 1000, 128, 4096, 65536])
+        dur = rng.choice([20, 60]) if tps <= 128 else (6 if tps <= 4096 else 1)
         params = {"ticks_per_second": tps, "duration": dur, "waiting_seconds_mean": rng.choice([0.5, 1.3, 2.0]),
                   "num_pipelines": rng.randint(1, 3), "random_seed": rng.randint(0, 10 ** 6)}
         with tempfile.TemporaryDirectory() as td:
@@ -198,7 +209,12 @@ def roundtrip(ctx):
                 if ft < n:
                     pred[ft] += 1
             late_writer = [a for a in written if F(a) * tps > math.floor(float(a) * tps + 0.5)]
-            sig = {"clause": "gentrace-roundtrip-off-by-one-float"} if pred == got else {"clause": "gentrace-roundtrip-differs"}
+            # the known finding D5b is the float product tick * (1/tps) written verbatim and replayed through the float quotient; a writer that puts
+            # anything else into the file (rounded, shifted, ...) is a different defect, and on power-of-two tick rates floats are exact, so D5b cannot occur
+            gen_ticks = [t for t in range(n) for _ in range(want[t])]
+            verbatim = len(gen_ticks) == len(written) and all(float(a) == t * (1.0 / tps) for a, t in zip(written, gen_ticks))
+            binary = tps & (tps - 1) == 0
+            sig = {"clause": "gentrace-roundtrip-off-by-one-float"} if (pred == got and verbatim and not binary) else {"clause": "gentrace-roundtrip-differs"}
             record(ctx, sig, f"gentrace + replay at {tps} ticks/s (seed {params['random_seed']}): pipelines per tick differ from the generator "
                              f"(first difference at tick {next(t for t in range(n) if got[t] != want[t])}); "
                              f"{len(late_writer)} written arrival(s) lie after their tick's start",
